@@ -4,6 +4,7 @@ import io
 from hypothesis import strategies as st
 
 from vlib import harness, refvbs
+from vlib.strat import uniform
 from vlib.harness import exc_sig
 from vlib.repo import HarnessError
 from cardutil import mciipm
@@ -156,7 +157,7 @@ def sweep_oneshot(ctx, lo, hi):
 OP = st.one_of(
     st.tuples(st.just('rel'), st.sampled_from([-2, -1, 0, 1, 2, 1011, 1012, 1013, 2024])),
     st.tuples(st.just('abs'), st.sampled_from([0, 0, 1, 2, 4, 1011, 1012, 1013, 2024, 2025])),
-    st.tuples(st.just('abs'), st.integers(0, 3100)),
+    st.tuples(st.just('abs'), uniform(0, 3100)),
 )
 HISTORY = st.tuples(st.lists(OP, min_size=1, max_size=14), st.sampled_from(['finalise', 'seek', 'close']))
 
